@@ -354,6 +354,140 @@ func (f *file) lockReleased(fnName, lock string) (int64, bool) {
 	return 1, true
 }
 
+
+// slotReleased generalises lockReleased to acquire/release pairs of a counter: after an
+// `atomic.AddInt32(&….<field>, +n)` (as a statement or inside the condition / init of an `if`) every way
+// out of the function — each `return` and the end of the body — is covered by a release
+// `atomic.AddInt32(&….<field>, -n)`: a statement executed before it on that path, or a `defer` (a
+// function literal whose body contains the release) that was installed before it. 1 = every path
+// releases, 0 = some path leaves with the slot taken.
+func (f *file) slotReleased(fnName, field string) (int64, bool) {
+	fd := f.funcDecl(fnName)
+	if fd == nil || fd.Body == nil {
+		return 0, false
+	}
+	addOf := func(n ast.Node, sign int) bool {
+		found := false
+		if n == nil {
+			return false
+		}
+		ast.Inspect(n, func(m ast.Node) bool {
+			if _, isLit := m.(*ast.FuncLit); isLit && m != n {
+				return false // a nested function literal runs later (defer / go)
+			}
+			call, ok := m.(*ast.CallExpr)
+			if !ok || exprStr(f.fset, call.Fun) != "atomic.AddInt32" || len(call.Args) != 2 {
+				return true
+			}
+			a0 := exprStr(f.fset, call.Args[0])
+			if len(a0) <= len(field) || a0[len(a0)-len(field)-1:] != "."+field {
+				return true
+			}
+			if v, ok := intLit(call.Args[1]); ok && ((sign > 0 && v > 0) || (sign < 0 && v < 0)) {
+				found = true
+			}
+			return true
+		})
+		return found
+	}
+	sawAcquire, deferred, leak := false, false, false
+	var walk func(stmts []ast.Stmt, held bool) (bool, bool)
+	walkStmt := func(st ast.Stmt, held bool) (bool, bool) { return held, false }
+	walkStmt = func(st ast.Stmt, held bool) (bool, bool) {
+		switch x := st.(type) {
+		case *ast.ExprStmt, *ast.AssignStmt:
+			if addOf(st, +1) {
+				sawAcquire = true
+				return true, false
+			}
+			if addOf(st, -1) {
+				return false, false
+			}
+		case *ast.DeferStmt:
+			if lit, ok := x.Call.Fun.(*ast.FuncLit); ok && addOf(lit.Body, -1) {
+				deferred = true
+			} else if addOf(x.Call, -1) {
+				deferred = true
+			}
+		case *ast.ReturnStmt:
+			if held && !deferred {
+				leak = true
+			}
+			return held, true
+		case *ast.BlockStmt:
+			return walk(x.List, held)
+		case *ast.IfStmt:
+			if (x.Init != nil && addOf(x.Init, +1)) || addOf(x.Cond, +1) {
+				sawAcquire = true
+				held = true
+			}
+			l1, t1 := walk(x.Body.List, held)
+			l2, t2 := held, false
+			if x.Else != nil {
+				l2, t2 = walkStmt(x.Else, held)
+			}
+			switch {
+			case t1 && t2:
+				return held, true
+			case t1:
+				return l2, false
+			case t2:
+				return l1, false
+			}
+			return l1 || l2, false
+		case *ast.ForStmt:
+			l, _ := walk(x.Body.List, held)
+			return l || held, false
+		case *ast.RangeStmt:
+			l, _ := walk(x.Body.List, held)
+			return l || held, false
+		case *ast.SwitchStmt:
+			out := held
+			for _, cl := range x.Body.List {
+				if c, ok := cl.(*ast.CaseClause); ok {
+					if l, t := walk(c.Body, held); !t {
+						out = out || l
+					}
+				}
+			}
+			return out, false
+		case *ast.SelectStmt:
+			out := held
+			for _, cl := range x.Body.List {
+				if c, ok := cl.(*ast.CommClause); ok {
+					if l, t := walk(c.Body, held); !t {
+						out = out || l
+					}
+				}
+			}
+			return out, false
+		}
+		return held, false
+	}
+	walk = func(stmts []ast.Stmt, held bool) (bool, bool) {
+		for _, st := range stmts {
+			var term bool
+			held, term = walkStmt(st, held)
+			if term {
+				return held, true
+			}
+		}
+		return held, false
+	}
+	held, term := walk(fd.Body.List, false)
+	if !term && held && !deferred {
+		leak = true
+	}
+	if !sawAcquire {
+		anchorLost("%s: %s: no `atomic.AddInt32(&….%s, +n)` found", f.path, fnName, field)
+		return 0, false
+	}
+	if leak {
+		return 0, true
+	}
+	return 1, true
+}
+
 func c08AppendUnique(l []string, names ...string) []string {
 	for _, n := range names {
 		dup := false
@@ -373,7 +507,7 @@ func init() {
 	mirrored["tars/servant.go"] = c08AppendUnique(mirrored["tars/servant.go"],
 		"ServantProxy.genRequestID", "ServantProxy.TarsInvoke", "ServantProxy.doInvoke")
 	mirrored["tars/adapter.go"] = c08AppendUnique(mirrored["tars/adapter.go"],
-		"AdapterProxy.Recv", "AdapterProxy.Send", "NewAdapterProxy")
+		"AdapterProxy.Recv", "AdapterProxy.Send", "NewAdapterProxy", "AdapterProxy.doKeepAlive", "AdapterProxy.autoKeepAlive")
 	mirrored["tars/transport/tarsclient.go"] = c08AppendUnique(mirrored["tars/transport/tarsclient.go"],
 		"TarsClient.Send", "TarsClient.ReConnect", "connection.ReConnect", "NewTarsClient", "connection.send", "connection.close", "connection.lost")
 	mirrored["tars/endpointmanager.go"] = c08AppendUnique(mirrored["tars/endpointmanager.go"],
@@ -401,7 +535,12 @@ func init() {
 		add("callQueueLenDecSameReceiver", v, ok)
 		v, ok = sv.makeChanCap("ServantProxy.doInvoke", "readCh")
 		add("callReplyChanCap", v, ok)
+		// every way out of doInvoke / doKeepAlive after the queueLen slot was taken gives it back
+		v, ok = sv.slotReleased("ServantProxy.doInvoke", "queueLen")
+		add("callInvokeSlotReleased", v, ok)
 		ad := parse("tars/adapter.go")
+		v, ok = ad.slotReleased("AdapterProxy.doKeepAlive", "queueLen")
+		add("callKeepAliveSlotReleased", v, ok)
 		v, ok = ad.cmpLit("AdapterProxy.Recv", "packet.IRequestId", token.EQL)
 		add("callPushId", v, ok)
 		bf := parse("tars/protocol/res/basef/BaseF.go")
